@@ -510,10 +510,52 @@ def rule_keys(repo, tier):
     return res
 
 
+@guarded
+def rule_wexp(repo, tier):
+    """A weight given for fewer leading batch dimensions than the residual is broadcast over the MISSING LEADING dimensions: residual items are
+    flattened with the leading dimensions varying slowest, so the block list of the weight has to be repeated as a whole (tiled: w0..wN-1,
+    w0..wN-1, ...), never item by item (w0, w0, ..., w1, w1, ...), which pairs item (b, n) with weight[(b*N+n) // B]."""
+    res = RuleResult('C07.WEXP', 'normalize_RWJ expands a batched weight by tiling its whole block list (list * k, repeat/tile along the flattened '
+                     'axis), not by repeating each block in place (repeat_interleave, inner-loop repetition)', floor=1)
+    f = repo.func(OPT, 'RobustModel.normalize_RWJ')
+    bad, good = [], []
+    for n in ast.walk(f.node):
+        if isinstance(n, ast.Call):
+            name = (dotted(n.func) or (n.func.attr if isinstance(n.func, ast.Attribute) else '')).split('.')[-1]
+            if name == 'repeat_interleave':
+                bad.append((n, 'repeat_interleave repeats every block in place'))
+            elif name in ('tile', 'repeat') and isinstance(n.func, ast.Attribute):
+                good.append(n)
+        elif isinstance(n, ast.BinOp) and isinstance(n.op, ast.Mult):
+            # list * int
+            for a, b in ((n.left, n.right), (n.right, n.left)):
+                if isinstance(a, ast.Name) and isinstance(b, (ast.Call, ast.Name)) and ('int' in src(b) or isinstance(b, ast.Name)):
+                    ls = [v for v in ast.walk(f.node) if isinstance(v, ast.Assign) and any(isinstance(t, ast.Name) and t.id == a.id for t in v.targets)
+                          and isinstance(v.value, (ast.ListComp, ast.List)) or (isinstance(v, ast.Assign) and any(isinstance(t, ast.Name) and t.id == a.id for t in v.targets)
+                                                                              and isinstance(v.value, ast.Call) and 'split' in src(v.value))]
+                    if ls:
+                        good.append(n)
+        elif isinstance(n, (ast.ListComp, ast.GeneratorExp)) and len(n.generators) == 2:
+            g0, g1 = n.generators
+            # [x for x in ws for _ in range(k)]  = in-place repetition ;  [x for _ in range(k) for x in ws] = tiling
+            if isinstance(g1.iter, ast.Call) and dotted(g1.iter.func) == 'range' and isinstance(n.elt, ast.Name) and isinstance(g0.target, ast.Name) \
+                    and n.elt.id == g0.target.id:
+                bad.append((n, 'the inner loop repeats every block in place'))
+            elif isinstance(g0.iter, ast.Call) and dotted(g0.iter.func) == 'range':
+                good.append(n)
+    res.inst({'function': f.fq, 'tiling expansions': [src(g)[:40] for g in good], 'in-place repetitions': [src(b)[:40] for b, _ in bad]}, f.fq)
+    for b, why in bad:
+        res.add(Finding('C07.WEXP', f, '`%s`: %s, but the residual items are flattened with the missing leading batch dimensions varying slowest - item '
+                        '(b, n) must meet weight[n], which is the n-th block of a TILED list' % (src(b)[:60], why), node=b))
+    if not good and not bad:
+        raise AnalysisError('C07.WEXP: the weight expansion of normalize_RWJ was not recognised')
+    return res
+
+
 def _rules_core(repo, tier):
     from ..stale import rule_stale
     from ..effects import rule_pure
-    return [rule_sys(repo, tier), rule_corr(repo, tier), rule_damp(repo, tier), rule_upd(repo, tier), rule_keys(repo, tier),
+    return [rule_wexp(repo, tier), rule_sys(repo, tier), rule_corr(repo, tier), rule_damp(repo, tier), rule_upd(repo, tier), rule_keys(repo, tier),
             rule_stale(repo, 'C07.STALE', [(OPT, 'LevenbergMarquardt.step'), (OPT, 'GaussNewton.step')]),
             rule_pure(repo, 'C07.PURE', 'what a step hands to its collaborators stays intact: no linear solver writes into A or b (the LM trial loop solves '
                       'again after a rejection), no corrector / weight normalisation writes into the residuals, Jacobians or weights it is given',
